@@ -146,7 +146,7 @@ def r_order(ctx):
             if m in bad:
                 ctx.violation(rid, "%s|%s" % (fn, m), MOD, fi.line, "%s uses .%s(): rule order is not document order any more" % (fn, m))
         if "iter" not in ms:
-            ctx.violation(rid, "%s|noiter" % fn, MOD, fi.line, "%s no longer iterates cddl.rules" % fn)
+            ctx.incomplete_msg(rid, "%s does not iterate cddl.rules with .iter() any more: the iteration idiom is not recognised" % fn)
 
 
 def run(ctx):
